@@ -548,6 +548,8 @@ class Exec:
                     pass  # Box<T> is modelled as a reference to its heap cell: Box.0 (Unique) .0 (NonNull) is that pointer
                 elif isinstance(v, Adt):
                     v = v.fields[p[1]]
+                elif isinstance(v, Opaque) and v.sort == "FeelNumber" and p[1] == 0:
+                    pass  # FeelNumber(DecQuad): the number model stands for its decimal payload too
                 elif isinstance(v, tuple):  # downcast payload
                     v = v[p[1]]
                 elif isinstance(v, Ref) and v.projs == () and isinstance(st.cells.get(v.cell), Adt) and False:
